@@ -703,6 +703,54 @@ func ruleSenderResolution(c *Ctx) {
 	if !okB {
 		o.Expected, o.Found = strings.Join(wantBodies, " ; "), strings.Join(bodies, " ; ")
 	}
+	// which body for which message: the promise body exactly for notifications (in Process or in
+	// the helper that builds the body)
+	okWhich, nLits := true, 0
+	bodyFns := []*ast.FuncDecl{fd}
+	for _, call := range callsInDeep(fd.Body) {
+		if fn, isFn := calleeOf(info, call).(*types.Func); isFn && fn.Pkg() == pk.Types {
+			if d := funcDeclOf(pk, fn); d != nil && d.Body != nil && d != fd {
+				bodyFns = append(bodyFns, d)
+			}
+		}
+	}
+	for _, bf := range bodyFns {
+		benv := newProvEnv(pk, bf)
+		ast.Inspect(bf.Body, func(n ast.Node) bool {
+			cl, isCl := n.(*ast.CompositeLit)
+			if !isCl {
+				return true
+			}
+			tv, has := info.Types[cl]
+			if !has {
+				return true
+			}
+			if _, isMap := tv.Type.Underlying().(*types.Map); !isMap || !strings.Contains(types.TypeString(tv.Type, nil), "interface") {
+				return true
+			}
+			isPromiseBody := false
+			for _, el := range cl.Elts {
+				if kv, isKv := el.(*ast.KeyValueExpr); isKv && exprString(kv.Key) == `"promise"` {
+					isPromiseBody = true
+				}
+			}
+			nLits++
+			forNotify, forOther := false, false
+			for _, a := range benv.enclosingConds(bf.Body, cl) {
+				if strings.HasSuffix(a, " == Notify)") {
+					forNotify = true
+				}
+				if strings.HasSuffix(a, " != Notify)") {
+					forOther = true
+				}
+			}
+			if isPromiseBody != forNotify || isPromiseBody == forOther {
+				okWhich = false
+			}
+			return false
+		})
+	}
+	c.check(okWhich && nLits == 2, "sender/body-by-type", fd.Pos(), "the promise body is sent exactly for notifications, the task body otherwise", "the sender no longer chooses the body by `message type == Notify`: a notification would carry a task (or an invocation the completed promise)")
 }
 
 // ruleRouterFirstMatch: sources are applied in order, the first match wins; coerce accepts exactly
@@ -810,6 +858,81 @@ func ruleRouterFirstMatch(c *Ctx) {
 		}
 	}
 	c.check(ok, "router/first-match", hd.Pos(), "sources are tried in order; the first match ends the search, a miss goes on to the next source", "router: "+why)
+	// a match is reported only for a value that coerce accepted and that could be encoded
+	if rs != nil {
+		g := buildCFG(pk, hd.Body)
+		nameOf := func(call *ast.CallExpr) string {
+			fn, isFn := calleeOf(info, call).(*types.Func)
+			if !isFn {
+				return ""
+			}
+			switch {
+			case fn.Name() == "coerce" && fn.Pkg() == pk.Types:
+				return "coerce"
+			case fn.Name() == "Marshal" && fn.Pkg() != nil && fn.Pkg().Path() == "encoding/json":
+				return "marshal"
+			}
+			return ""
+		}
+		errEdge := errEdgeFacts(info, nameOf)
+		boolEdge := func(b *cfg.Block, i int) []string {
+			if len(b.Succs) != 2 || len(b.Nodes) == 0 {
+				return nil
+			}
+			cond, isExpr := b.Nodes[len(b.Nodes)-1].(ast.Expr)
+			if !isExpr {
+				return nil
+			}
+			cond = ast.Unparen(cond)
+			neg := false
+			if u, isU := cond.(*ast.UnaryExpr); isU && u.Op == token.NOT {
+				neg, cond = true, ast.Unparen(u.X)
+			}
+			id, isId := cond.(*ast.Ident)
+			if !isId {
+				return nil
+			}
+			obj := info.Uses[id]
+			for j := len(b.Nodes) - 2; j >= 0; j-- {
+				rhs, assigned := assignsTo(info, b.Nodes[j], obj)
+				if !assigned {
+					continue
+				}
+				if len(rhs) == 1 {
+					if call, isCall := ast.Unparen(rhs[0]).(*ast.CallExpr); isCall && nameOf(call) == "coerce" {
+						if (i == 0) != neg {
+							return []string{"ok:coerce"}
+						}
+						return []string{"failed:coerce"}
+					}
+				}
+				return nil
+			}
+			return nil
+		}
+		edge := func(b *cfg.Block, i int) []string { return append(errEdge(b, i), boolEdge(b, i)...) }
+		isSuccess := func(n ast.Node) bool {
+			found := false
+			ast.Inspect(n, func(x ast.Node) bool {
+				if kv, isKv := x.(*ast.KeyValueExpr); isKv && exprString(kv.Key) == "Matched" && exprString(kv.Value) == "true" {
+					found = true
+				}
+				return true
+			})
+			if ret, isRet := n.(*ast.ReturnStmt); isRet && hd != fd && len(ret.Results) == 2 && exprString(ret.Results[1]) == "true" {
+				found = true
+			}
+			return found
+		}
+		succ := mustFacts(g, func(ast.Node) []string { return nil }, edge, isSuccess)
+		okV := len(succ) >= 1
+		for _, f := range succ {
+			if !f["ok:coerce"] || !f["ok:marshal"] {
+				okV = false
+			}
+		}
+		c.check(okV, "router/match-needs-valid-receiver", hd.Pos(), "a match is reported only after coerce accepted the value and it was encoded", "the router can report a match for a value that coerce rejected or that could not be encoded: the task is created with a receiver nobody can resolve")
+	}
 	// both outcomes are answered: a completion with Matched: true and one with Matched false
 	hasTrue, hasFalse := false, false
 	ast.Inspect(fd.Body, func(n ast.Node) bool {
@@ -832,6 +955,28 @@ func ruleRouterFirstMatch(c *Ctx) {
 		return true
 	})
 	c.check(hasTrue && hasFalse, "router/no-match", fd.Pos(), "a match answers Matched: true, no match answers Matched: false", "the router no longer answers Matched: false when no source matched (or never answers Matched: true)")
+	// the tag source decodes a receiver object strictly: unknown members make it "not a receiver"
+	if ts := funcDecl(pk, "", "TagSource"); ts != nil {
+		strict, dec := token.NoPos, token.NoPos
+		ast.Inspect(ts.Body, func(n ast.Node) bool {
+			if call, isCall := n.(*ast.CallExpr); isCall {
+				if se, isSel := ast.Unparen(call.Fun).(*ast.SelectorExpr); isSel {
+					switch se.Sel.Name {
+					case "DisallowUnknownFields":
+						strict = call.Pos()
+					case "Decode":
+						if !dec.IsValid() {
+							dec = call.Pos()
+						}
+					}
+				}
+			}
+			return true
+		})
+		c.check(strict.IsValid() && dec.IsValid() && strict < dec, "router/tag-source-strict", ts.Pos(), "a JSON tag value is decoded with unknown members disallowed", "the tag source no longer decodes a JSON receiver strictly: an object that is not a receiver (extra members) is routed as one")
+	} else {
+		c.und("router/tag-source-strict", 0, "TagSource not found")
+	}
 	// coerce
 	co := funcDecl(pk, "", "coerce")
 	if co == nil {
